@@ -6,6 +6,12 @@ through the requests transport to the loopback server (the original request, as 
 reproduction command (`Case.as_curl_command(headers=<headers of the request that was sent>)`, exactly what the CLI does) and
 spec/CurlJudge.tla decides Interp(Tokens(command)) = original request.
 
+Histories (Curl.tla `HistorySlots`, `EngineHistorySlots`): the same case OBJECT is sent and printed with the spec's `Prior(el)` in the
+slot, changed in place (query / path / cookie / same-length body), sent and printed again - the last command is judged against the last
+request (design invariant `StaleRefuted`: the first rendering is refuted for it); and engine test cases in which two checks fail on
+different requests (own request, then an ignored_auth probe, and the reverse) - the command recorded for the later failure is judged
+against the request recorded for its case id.
+
 Environment binding: a stratified sample of the commands is executed by the real /bin/sh with the real curl against the loopback
 server; what arrives must equal what the TLA+ model predicts (else the *model* is wrong: machinery failure, exit 2) and is
 compared with the original request.  An independent Python reading (own tokenizer + option parser) cross-checks TLC's verdicts.
@@ -41,7 +47,7 @@ RAW = {
                "responses": {"200": {"description": "ok"}}} for m in ("post", "put", "patch")},
     }},
 }
-METHOD = {"engine-cookie": "GET", "engine-own": "GET", "engine-removed": "GET", "engine-overridden": "GET", "header": "GET", "query": "GET", "path": "DELETE", "cookie": "PATCH", "body": "POST", "json": "PUT", "form": "POST", "auth": "GET", "multipart": "POST",
+METHOD = {"engine-cookie": "GET", "engine-after-removed": "GET", "engine-after-overridden": "GET", "engine-removed-then-own": "GET", "engine-own": "GET", "engine-removed": "GET", "engine-overridden": "GET", "header": "GET", "query": "GET", "path": "DELETE", "cookie": "PATCH", "body": "POST", "json": "PUT", "form": "POST", "auth": "GET", "multipart": "POST",
           "graphql": "POST", "wsgi": "GET"}
 SANITIZED_LEN = 2   # elements with strings up to this length are also printed with output sanitisation on
 _P: dict = {}
@@ -122,7 +128,9 @@ def project(rec, auth: str, keep_auto: bool) -> dict:
 
 
 FRONT = {"api-header": "header", "api-body": "body", "base-slash": "path", "cookie-session": "cookie", "cookie-call": "cookie",
-         "cookie-header": "cookie", "api-cookie-session": "cookie"}
+         "cookie-header": "cookie", "api-cookie-session": "cookie",
+         "again-query": "query", "again-path": "path", "again-cookie": "cookie", "again-body": "body"}
+HISTORY = {"again-query", "again-path", "again-cookie", "again-body"}   # Curl.tla HistorySlots: render, change in place, render again
 SET_COOKIE = (200, [("Content-Type", "application/json"), ("Set-Cookie", "sid=abc123; Path=/")], b"{}")
 MARKER = "Reproduce with: \n\n    "
 
@@ -148,6 +156,20 @@ class _Rec:
         self.body = body
 
 
+def change_in_place(case, inner: dict) -> None:
+    """The case object that was sent and printed gets the element's string in its slot - the same object, changed in place."""
+    kw = case_kwargs(inner)
+    slot = inner["slot"]
+    if slot == "query":
+        case.query["q"] = kw["query"]["q"]
+    elif slot == "path":
+        case.path_parameters["p"] = kw["path_parameters"]["p"]
+    elif slot == "cookie":
+        case.cookies["c"] = kw["cookies"]["c"]
+    else:
+        case.body = kw["body"]
+
+
 def observe(el: dict) -> dict:
     """Send the case (original request, as received by the server) and obtain the reproduction command from the real code."""
     import schemathesis
@@ -156,6 +178,8 @@ def observe(el: dict) -> dict:
     srv = _server()
     slot = el["slot"]
     inner = dict(el, slot=FRONT.get(slot, slot))
+    if slot in HISTORY and not el["fragment"]:
+        return {"unsendable": "history element outside the property's fragment"}
     auth = srv.base_url.split("://", 1)[1]
     if slot == "graphql":
         if "graphql" not in _P:
@@ -167,7 +191,9 @@ def observe(el: dict) -> dict:
             _P["wsgi"] = schemathesis.openapi.from_dict(json.loads(json.dumps(RAW))).configure(app=_wsgi_app, output=OutputConfig(sanitize=False))
         case = _P["wsgi"]["/x/{p}"]["GET"].Case(path_parameters={"p": "a"}, query={"q": text(el["s"])})
     else:
-        case = _schema(False, "/api/" if slot == "base-slash" else "")["/x/{p}"][method_of(inner)].Case(**case_kwargs(inner))
+        first = dict(inner, s=el["prior"]) if slot in HISTORY else inner   # a history element starts with the spec's Prior(el) in the slot
+        case = _schema(False, "/api/" if slot == "base-slash" else "")["/x/{p}"][method_of(inner)].Case(**case_kwargs(first))
+    verify = len(el["s"]) % 2 == 0 or slot.startswith("api-")
     srv.clear()
     _P.pop("environ", None)
     message = None
@@ -200,6 +226,16 @@ def observe(el: dict) -> dict:
             response = case.call(cookies={"d": "2"})
         elif slot == "cookie-header":
             response = case.call(headers={"Cookie": "sid=abc123"})
+        elif slot in HISTORY:
+            # render, change in place, render: the first request is sent and its command printed, then the very same object is changed,
+            # sent again and (below) printed again with the headers of the request that went out now and the same `verify`
+            before = case.call()
+            stale = case.as_curl_command(headers=dict(before.request.headers), verify=verify)
+            change_in_place(case, inner)
+            srv.clear()
+            response = case.call()
+            history = {"stale_cmd": cps(stale.replace(auth, FIXED_AUTH)),
+                       "headers_equal": dict(before.request.headers) == dict(response.request.headers)}
         else:
             response = case.call()
     except Exception as exc:
@@ -212,7 +248,6 @@ def observe(el: dict) -> dict:
         if len(log) != 1:
             return {"unsendable": "%d requests recorded" % len(log)}
         original = log[0]
-    verify = len(el["s"]) % 2 == 0 or slot.startswith("api-")
     if slot in FRONT and FRONT[slot] == "cookie" and "cookie" not in {k.lower() for k, _ in original.headers}:
         return {"unsendable": "no Cookie header went out"}
     try:
@@ -235,6 +270,8 @@ def observe(el: dict) -> dict:
         return {"cmd_error": "%s: %s" % (type(exc).__name__, str(exc)[:120])}
     out = {"cmd": cps(cmd.replace(auth, FIXED_AUTH)), "orig": project(original, auth, False), "orig_full": project(original, auth, True),
            "verify": verify, "no_exec": slot == "wsgi"}
+    if slot in HISTORY:
+        out.update(history)
     if len(el["s"]) <= SANITIZED_LEN and slot not in FRONT and slot not in ("graphql", "wsgi"):
         # the same request printed with output sanitisation on: only redacted values may differ
         case_s = _schema(True)["/x/{p}"][method_of(el)].Case(**case_kwargs(el))
@@ -272,6 +309,13 @@ def observe_engine(el: dict) -> dict:
     srv = _server()
     auth = srv.base_url.split("://", 1)[1]
     kind = el["slot"].split("-", 1)[1]
+    # history of failures inside one test case (Curl.tla EngineHistorySlots): two checks fail, on different requests; the judged command
+    # is the one recorded for the later failure
+    checks_of = {"own": [_always_fails], "cookie": [_always_fails], "after-removed": [_always_fails, ignored_auth], "after-overridden": [_always_fails, ignored_auth],
+                 "removed-then-own": [ignored_auth, _always_fails]}
+    order = kind
+    kind = {"after-removed": "removed", "after-overridden": "overridden", "removed-then-own": "own"}.get(kind, kind)
+    enforce = order in ("overridden", "after-overridden")
     cookie_run = kind == "cookie"   # a configured Cookie header next to a generated cookie parameter; the failure is on the own request
     if cookie_run:
         kind = "own"
@@ -279,7 +323,7 @@ def observe_engine(el: dict) -> dict:
     deny = (401, [("Content-Type", "application/json")], b"{}")
     # removed: auth never enforced -> the no-credentials probe fails the check; overridden: any credential accepted -> the invalid-credentials
     # probe fails it; own: a check that fails on the case's own response
-    srv.behaviour = (lambda rec: ok if rec.header("X-Access") is not None else deny) if kind == "overridden" else (lambda rec: ok)
+    srv.behaviour = (lambda rec: ok if rec.header("X-Access") is not None else deny) if enforce else (lambda rec: ok)
     srv.clear()
     try:
         raw = json.loads(json.dumps(ENGINE_RAW))
@@ -291,7 +335,7 @@ def observe_engine(el: dict) -> dict:
         schema.configure(base_url=srv.base_url, output=OutputConfig(sanitize=False))
         config = EngineConfig(
             execution=ExecutionConfig(
-                phases=[PhaseName.FUZZING], checks=[_always_fails if kind == "own" else ignored_auth],
+                phases=[PhaseName.FUZZING], checks=checks_of.get(order, [ignored_auth]),
                 hypothesis_settings=hypothesis.settings(max_examples=1, deadline=None, database=None, derandomize=True),
                 generation=schema.generation_config),
             network=NetworkConfig(headers=net_headers))
@@ -707,7 +751,9 @@ def run(ctx: Ctx) -> Outcome:
         "rule": "every element of Curl.tla's family under %s (TLC-enumerated strings over {a ' \" \\ $ ` space newline @ ; : & %%} in the "
                 "header-value, Authorization, query, path, cookie, text/JSON/form body slots; and in a configured header of real engine runs whose failure is on the "
                 "case's own request / on an ignored_auth probe with the credential removed / overridden - there the command is the engine's code sample and the "
-                "original is the request recorded for the failing case id); each built into a real case, sent, and its printed command "
+                "original is the request recorded for the failing case id; and after another check already failed on the other request of the same test case); "
+                "histories on one case object (again-*: sent and printed with the spec's Prior string, changed in place in the query / path / cookie / "
+                "same-length body, sent and printed again - the last command against the last request); each built into a real case, sent, and its printed command "
                 "judged; plus empty / minimal payloads ({} and {k: a} as form, the empty text, {} [] null as JSON) for POST, PUT and PATCH; non-trivial = "
                 "the string contains a shell / curl significant character or is empty; strings of length <= %d are also printed with "
                 "output sanitisation on and compared up to [Filtered] values" % (cfg, SANITIZED_LEN),
@@ -721,6 +767,10 @@ def run(ctx: Ctx) -> Outcome:
         "strata_total": len({(cases[i]["slot"], cases[i]["m"], features(cases[i])) for i, _ in sendable}),
         "executed_slots": sorted({cases[i]["slot"] for i in picks}),
         "empty_or_minimal_payload_elements": sum(1 for c in cases if c["m"] != "-"),
+        "history_elements_rendered_changed_rendered": sum(1 for i, _ in sendable if cases[i]["slot"] in HISTORY),
+        "history_elements_with_equal_headers_on_both_requests": sum(1 for _, o in sendable if o.get("headers_equal")),
+        "history_elements_where_the_first_command_differs_from_the_last": sum(1 for _, o in sendable if "stale_cmd" in o and o["stale_cmd"] != o["cmd"]),
+        "engine_failure_history_commands_judged": sum(1 for i, _ in sendable if cases[i]["slot"] in ("engine-after-removed", "engine-after-overridden", "engine-removed-then-own")),
         "engine_attached_commands_judged": sum(1 for i, _ in sendable if cases[i]["slot"].startswith("engine-")),
         "model_matches_real_tools": sum(1 for v in verdicts if v["model"] == "T"),
         "model_indefinite_on_executed": sum(1 for v in verdicts if v["model"] == "U"),
